@@ -97,7 +97,10 @@ pub fn run(seed: u64, thorough: bool, out_dir: &std::path::Path) -> Out {
             window: (2, 10),
             with_proposals: false,
         };
-        let tree = gen_tree(&mut rng, &params);
+        // every fourth tree is of the directed family "short heavy branch vs long light branch"
+        let directed = ti % 4 == 3;
+        let tree = if directed { gen_tree_heavy_vs_light(&mut rng) } else { gen_tree(&mut rng, &params) };
+        if directed { *out.stats.entry("trees_heavy_vs_light".into()).or_default() += 1; }
         let n = tree.nodes.len() as u64;
         // ---- the property, computed from the tree (independent of the Coq model) ----
         let gtd = u256_to_u128(&tree.genesis_difficulty);
@@ -126,7 +129,7 @@ pub fn run(seed: u64, thorough: bool, out_dir: &std::path::Path) -> Out {
 
         for _si in 0..scheds_per_tree {
             let sched = gen_schedule(&mut rng, n, &mut out.stats);
-            let jcase = json!({"stream": "tree-schedule", "genesis_epoch_length": params.genesis_epoch_length, "tree": jtree, "schedule": sched});
+            let jcase = json!({"stream": "tree-schedule", "directed_heavy_vs_light": directed, "tree": jtree, "schedule": sched});
             note_history(&[jcase.clone()]);
             let r = std::panic::catch_unwind(std::panic::AssertUnwindSafe(|| {
                 let node = Node::temp(&tree.consensus);
